@@ -101,7 +101,45 @@ func cmpTwin(v interface{}) interface{} {
 	return v
 }
 
+// leaf paths of a canonical map as Document.Fields(true) reports them: nested maps contribute dotted paths
+// (an empty nested map therefore contributes nothing, as in util.MapKeys and the model's leaf_paths)
+func leafPaths(m map[string]interface{}, prefix string, out *[]string) {
+	for k, v := range m {
+		if sub, isMap := v.(map[string]interface{}); isMap {
+			leafPaths(sub, prefix+k+".", out)
+		} else {
+			*out = append(*out, prefix+k)
+		}
+	}
+}
+
+func docViewsAgree(doc *d.Document, want map[string]interface{}) string {
+	top := sortedKeys(want)
+	if got := doc.Fields(false); strings.Join(got, "\x00") != strings.Join(top, "\x00") {
+		return fmt.Sprintf("Fields(false) = %q, the document has the top-level fields %q", got, top)
+	}
+	var leaves []string
+	leafPaths(want, "", &leaves)
+	sort.Strings(leaves)
+	if got := doc.Fields(true); strings.Join(got, "\x00") != strings.Join(leaves, "\x00") {
+		return fmt.Sprintf("Fields(true) = %q, the document has the leaf paths %q", got, leaves)
+	}
+	if Tstr(tValue(doc.ToMap())) != Tstr(tValue(want)) {
+		return "ToMap() differs from the stored document"
+	}
+	cp := doc.Copy()
+	cp.Set("zz-copy-probe", int64(1))
+	if doc.Has("zz-copy-probe") {
+		return "Set on a Copy() changed the original document"
+	}
+	if Tstr(tValue(doc.AsMap())) != Tstr(tValue(want)) {
+		return "AsMap() changed after Copy()/ToMap()"
+	}
+	return ""
+}
+
 func runC11(seed int64, n int, out, backendSpec string) *RunReport {
+	known := map[string]bool{}
 	f := &failer{}
 	cs := &CaseSet{}
 	evals := 0
@@ -165,6 +203,10 @@ func runC11(seed int64, n int, out, backendSpec string) *RunReport {
 				if want != got {
 					f.failf("document read back differs (%s, %s): stored %s read %s", phase, be, gValue(inserted[id]), gValue(doc.AsMap()))
 				}
+				// the other views of a document agree with it: Fields (top-level names, leaf paths), ToMap, Copy
+				if msg := docViewsAgree(doc, inserted[id]); msg != "" {
+					f.failf("%s (%s, %s): document %s", msg, phase, be, clip(gValue(inserted[id]), 400))
+				}
 			}
 			docs, err := env.db.FindAll(query.NewQuery("c"))
 			if err != nil || len(docs) != len(order) {
@@ -192,6 +234,22 @@ func runC11(seed int64, n int, out, backendSpec string) *RunReport {
 					inserted[id] = m
 					order = append(order, id)
 				}
+			}
+		}
+		// known finding K-negoffset: a zone offset that is negative and has a seconds part does not survive Go's
+		// time.MarshalBinary/UnmarshalBinary, which internal/time.go relies on (through gob)
+		{
+			tv := time.Unix(1700000000, 5).In(time.FixedZone("", -30))
+			doc := d.NewDocumentOf(map[string]interface{}{"_id": idPool[3], "t": tv})
+			if err := env.db.Insert("c", doc); err == nil {
+				if got, err := env.db.FindById("c", idPool[3]); err == nil && got != nil {
+					if rt, isTime := got.Get("t").(time.Time); isTime {
+						if _, off := rt.Zone(); off != -30 {
+							known[fmt.Sprintf("K-negoffset: a time with zone offset -30s is read back with offset %+ds (same instant: %v)", off, rt.Equal(tv))] = true
+						}
+					}
+				}
+				env.db.DeleteById("c", idPool[3])
 			}
 		}
 		check("before reopen")
@@ -251,7 +309,7 @@ func runC11(seed int64, n int, out, backendSpec string) *RunReport {
 	files := cs.Write(out, "c11")
 	return &RunReport{Stream: "c11", Seed: seed, Evaluations: evals, Distinct: len(kinds) * 3,
 		Rule:         "one evaluation = one document read back (FindById / FindAll before and after close+reopen, and Decode(Encode)) compared type-for-type with what was stored; the whole write history also goes to the model",
-		OracleFails:  f.fails, CaseFiles: files, Samples: samples,
+		OracleFails:  f.fails, CaseFiles: files, Samples: samples, Known: keysOf(known),
 		Distribution: map[string]interface{}{"documents_per_backend": n, "value_kinds": kinds, "backends": backendsOf(backendSpec)}}
 }
 
@@ -606,7 +664,7 @@ func runC18(seed int64, n int, out string) *RunReport {
 	}
 	// structs through NewDocumentOf and Document.Unmarshal (unm.go)
 	unmOutcomes := map[string]int{}
-	runUnmarshalCases(g, n*4, cs, f, &evals, unmOutcomes, &samples)
+	runUnmarshalCases(g, n*4, cs, f, &evals, unmOutcomes, &samples, known)
 	files := cs.Write(out, "c18")
 	return &RunReport{Stream: "c18", Seed: seed, Evaluations: evals, Distinct: len(kinds),
 		Rule:         "one evaluation = one Normalize (or Set) call on a Go value built from structs with tags, pointers, maps, slices, arrays and unsupported kinds, compared with the model and checked for canonicity, idempotence and the Set/Get/Has laws, or one NewDocumentOf + Document.Unmarshal of a reflect-filled struct (same or another target type) compared with the model's Unmarshal and checked for: document unchanged, and inside the round-trip domain Normalize(result) = Normalize(original); distinct = distinct Go types",
